@@ -34,11 +34,16 @@ pub async fn run(ev: &mut Evidence, rounds: usize, seed: u64) {
         let mut rng = vcommon::rng::Rng::sub(seed, 1151, r as u64);
         let established = 1 + rng.below(4) as usize;
         let pending = 1 + rng.below(3) as usize;
-        round(ev, established, pending).await;
+        // every third round: the server is told to stop while its accepts are still failing
+        let stop = match r % 3 {
+            2 => Some(if rng.chance(1, 2) { "shutdown" } else { "drop_handle" }),
+            _ => None,
+        };
+        round(ev, established, pending, stop).await;
     }
 }
 
-async fn round(ev: &mut Evidence, established: usize, pending: usize) {
+async fn round(ev: &mut Evidence, established: usize, pending: usize, stop: Option<&'static str>) {
     let Ok(listener) = tokio::net::TcpListener::bind("127.0.0.1:0").await else {
         ev.inconclusive("c15accept: bind");
         return;
@@ -86,6 +91,44 @@ async fn round(ev: &mut Evidence, established: usize, pending: usize) {
             }
         })
         .collect();
+    if let Some(how) = stop {
+        // shutdown / handle drop while accept() keeps failing: honoured like at any other time
+        tokio::time::sleep(Duration::from_millis(150)).await;
+        let mut handle = Some(handle);
+        if how == "shutdown" {
+            let _ = handle.as_mut().unwrap().shutdown().await;
+        } else {
+            handle = None;
+        }
+        let mut server = server;
+        let ended = tokio::time::timeout(Duration::from_secs(3), &mut server).await.is_ok();
+        let mut closed = 0;
+        for s in sessions.iter_mut() {
+            let mut b = [0u8; 16];
+            if matches!(tokio::time::timeout(Duration::from_secs(2), s.read(&mut b)).await, Ok(Ok(0)) | Ok(Err(_))) {
+                closed += 1;
+            }
+        }
+        drop(hog);
+        ev.eval();
+        ev.count("accept_failure_scenarios", 1);
+        ev.class(format!("accept_failure|established={established}|pending={pending}|{how}_during_failure"));
+        if second.is_err() {
+            ev.inconclusive("c15accept: could not produce a pending connection at the descriptor limit");
+        } else if !ended || closed != sessions.len() {
+            ev.violation(
+                format!("accept_error:{how}_during_failure_not_honoured"),
+                format!("{how} while accept() was failing (no descriptor left): server task ended within 3 s = {ended}, established sessions closed = {closed} of {}", sessions.len()),
+                serde_json::json!({"leg": "c15accept", "stop": how}),
+            );
+        }
+        if !ended {
+            server.abort();
+        }
+        drop(handle);
+        drop(second);
+        return;
+    }
     tokio::time::sleep(Duration::from_millis(400)).await;
     drop(hog);
     tokio::time::sleep(Duration::from_millis(300)).await;
